@@ -163,15 +163,74 @@ def check(prog: Program, tier: str) -> Result:
     _r18_7(prog, res)
     _r18_9(prog, res)
     _r18_11(prog, res)
+    _r18_12(prog, res)
     # R18.10: where a module comes from is a fact about the disk and sys.path NOW
     from . import c05 as _c05
     anchors = [f.key for f in prog.funcs.values() if f.mod.name == "tracing"]
     _c05.adopt_memo_rule(prog, res, "R18.10", anchors,
                          "import normalisation must hold for ANY layout of the imported packages: a memoised lookup answers for the layout of an earlier call "
                          "(another working directory, an edited or moved module), so star-imports are expanded to names the module no longer exports")
-    res.floors.update({"R18.1": 6, "R18.2": 2, "R18.4": 1, "R18.5": 1, "R18.10": 3, "R18.11": 2})
+    res.floors.update({"R18.1": 6, "R18.2": 2, "R18.4": 1, "R18.5": 1, "R18.10": 3, "R18.11": 2, "R18.12": 1})
     res.analysed["importfrom_constructions"] = n
     return res
+
+
+# ------------------------------------------------------------------------------------------------ R18.12
+def _r18_12(prog: Program, res: Result) -> None:
+    """An import inside a `try` statement is guarded: it may fail, and a handler binds the fallback (`try: import tomllib /
+    except ImportError: import tomli as tomllib`, `except ImportError: asyncore = None`).  Moved to module level it fails
+    unguarded - or, where it succeeds, leaves `try: pass`.  In move_imports_to_toplevel the collection whose elements are
+    scheduled for removal + re-insertion must have the imports under ast.Try taken out: its definition chain (bindings,
+    `-=`, difference_update, a filter in the loop) mentions a collection derived from a walk for ast.Try."""
+    from ..defuse import bindings
+    fn = prog.funcs.get(("fixes", "move_imports_to_toplevel"))
+    if fn is None:
+        raise AnalysisError("anchor fixes.move_imports_to_toplevel not found")
+    # the loop whose body appends its variable to the removals
+    loops = []
+    for lp in walk_own(fn.node):
+        if isinstance(lp, ast.For) and isinstance(lp.target, ast.Name):
+            v = lp.target.id
+            if any(isinstance(c, ast.Call) and isinstance(c.func, ast.Attribute) and c.func.attr in ("append", "add") and c.args and isinstance(c.args[0], ast.Name) and c.args[0].id == v
+                   and "remov" in norm(c.func.value).lower() for c in ast.walk(lp)):
+                loops.append(lp)
+    if not loops:
+        raise AnalysisError("move_imports_to_toplevel: loop that schedules the removals not found")
+    for lp in loops:
+        texts = [norm(lp.iter)]
+        seen = set()
+        todo = [x.id for x in ast.walk(lp.iter) if isinstance(x, ast.Name)]
+        while todo:
+            nm = todo.pop()
+            if nm in seen:
+                continue
+            seen.add(nm)
+            for st, v in bindings(fn).get(nm, []):
+                if v is not None:
+                    texts.append(norm(v))
+                    todo += [x.id for x in ast.walk(v) if isinstance(x, ast.Name)]
+            for x in walk_own(fn.node):
+                if isinstance(x, ast.AugAssign) and isinstance(x.target, ast.Name) and x.target.id == nm and isinstance(x.op, (ast.Sub, ast.BitAnd)):
+                    texts.append("-= " + norm(x.value))
+                    todo += [y.id for y in ast.walk(x.value) if isinstance(y, ast.Name)]
+                if isinstance(x, ast.Call) and isinstance(x.func, ast.Attribute) and x.func.attr in ("difference_update", "discard", "remove", "intersection_update") \
+                        and isinstance(x.func.value, ast.Name) and x.func.value.id == nm:
+                    texts.append("-= " + " ".join(norm(a) for a in x.args))
+                    todo += [y.id for a in x.args for y in ast.walk(a) if isinstance(y, ast.Name)]
+        # a filter at the top of the loop body
+        for st in lp.body:
+            if isinstance(st, ast.If) and any(isinstance(y, ast.Continue) for y in st.body):
+                texts.append("skip if " + norm(st.test))
+                for y in ast.walk(st.test):
+                    if isinstance(y, ast.Name):
+                        texts += [norm(v) for _s, v in bindings(fn).get(y.id, []) if v is not None]
+        removed = [t for t in texts if (t.startswith("-= ") or t.startswith("skip if ") or " if " in t) and "Try" in t] or \
+                  [t for t in texts if "Try" in t and any(u.startswith("-= ") or u.startswith("skip if ") for u in texts)]
+        ok = bool(removed)
+        res.decide(ok, "R18.12", fn.loc(lp), fn.fq, f"for {lp.target.id} in {short(lp.iter, 50)} # imports scheduled for moving",
+                   "imports under a try statement are taken out of the moved set" if ok else
+                   "nothing takes the imports under `try:` out of the moved set: `try: import tomllib / except ImportError: import tomli as tomllib` becomes "
+                   "`try: pass ...` plus an unguarded `import tomllib` at module level")
 
 
 # ------------------------------------------------------------------------------------------------ R18.11
@@ -499,6 +558,11 @@ def _r18_6(prog: Program, res: Result) -> None:
 from ..selftest import Variant  # noqa: E402
 
 VARIANTS = [
+    Variant("guarded-imports-hoisted", "FIRE", "fixes",
+            "    imports_movable_to_toplevel -= {\n        node\n        for try_node in core.walk(root, ast.Try)\n        for node in core.walk(try_node, (ast.Import, ast.ImportFrom))\n    }\n", "", "R18.12"),
+    Variant("guarded-imports-skipped-in-the-loop", "SILENT", "fixes",
+            "    imports_movable_to_toplevel -= {\n        node\n        for try_node in core.walk(root, ast.Try)\n        for node in core.walk(try_node, (ast.Import, ast.ImportFrom))\n    }\n",
+            "    guarded = {\n        node\n        for try_node in core.walk(root, ast.Try)\n        for node in core.walk(try_node, (ast.Import, ast.ImportFrom))\n    }\n    imports_movable_to_toplevel.difference_update(guarded)\n"),
     Variant("duplicate-imports-grouped-by-bound-name-only", "FIRE", "fixes", "                import_nodes[(i, alias.name, asname)].append(node)", "                import_nodes[(i, asname)].append(node)", "R18.11"),
     Variant("duplicate-imports-across-blocks", "FIRE", "fixes", "                import_nodes[(i, alias.name, asname)].append(node)", "                import_nodes[(alias.name, asname)].append(node)", "R18.11"),
     Variant("duplicate-from-imports-over-the-whole-tree", "FIRE", "fixes", "    for group in _group_statements_of_type(root, ast.ImportFrom):\n        module_import_aliases = collections.defaultdict(set)",
